@@ -162,6 +162,18 @@ def r2_loader(ctx) -> None:
           and x.func.attr in ('add', 'update', 'discard', 'remove', 'clear', 'pop', 'difference_update', 'intersection_update'):
         writers.add(m.name)
   allowed = {'clear', 'load', 'get_newly_completed_trials'}
+  # a private helper that writes the set counts as the methods that call it (it is their code, moved)
+  for _ in range(3):
+    for w in [w for w in writers if w.startswith('_') and not w.startswith('__')]:
+      callers = {m.name for m in ci.methods.values() if m.name != w and any(
+          isinstance(c.func, ast.Attribute) and c.func.attr == w and isinstance(c.func.value, ast.Name) and c.func.value.id == 'self'
+          for c in flow.calls_in(m.node))}
+      if callers:
+        writers.discard(w)
+        writers |= callers
+      elif w in getattr(ci.module.tree, '_vz_inlined', {}):
+        # every call of the helper was inlined into its callers before analysis: their bodies carry the write now
+        writers.discard(w)
   ctx.check(writers <= allowed and 'get_newly_completed_trials' in writers, 'R2', 'writers of the incorporated-id set', ci.node,
             f'written only by {sorted(writers)}',
             f'the incorporated-id set is also written by {sorted(writers - allowed)}', construct='writers', func=ci.qualname)
@@ -328,8 +340,13 @@ def r4_filters(ctx) -> None:
             'ServicePolicySupporter: status_matches -> TrialFilter.status', tf[0], '[status_matches] if set',
             f'TrialFilter.status is `{kw.get("status")}`', construct='status', func=f.qualname)
   # the filter is applied to every trial of the study
+  fvars = {t.id for x in ast.walk(f.node) if isinstance(x, ast.Assign) and x.value is tf[0] for t in x.targets if isinstance(t, ast.Name)}
+  def _is_filter_call(e):
+    return isinstance(e, ast.Call) and isinstance(e.func, ast.Name) and e.func.id in fvars and len(e.args) == 1
   applied = any(isinstance(x, (ast.ListComp, ast.GeneratorExp)) and x.generators[0].ifs
-                and 'trial_filter(' in unparse(x.generators[0].ifs[0], 0) for x in ast.walk(f.node))
+                and _is_filter_call(x.generators[0].ifs[0]) for x in ast.walk(f.node)) or any(
+      isinstance(x, ast.Call) and dotted(x.func) == 'filter' and len(x.args) == 2 and isinstance(x.args[0], ast.Name)
+      and x.args[0].id in fvars for x in ast.walk(f.node))
   ctx.check(applied, 'R4', 'ServicePolicySupporter: filter applied to all listed trials', f.node, '[t for t in all if trial_filter(t)]',
             'the constructed filter is not applied to the listed trials', construct='applied', func=f.qualname)
   # nothing but the TrialFilter decides: converted list == every listed trial
@@ -341,7 +358,7 @@ def r4_filters(ctx) -> None:
     o = prov.origins(conv[0].args[0], g.node_of(conv[0]))
     calls = [v for k, v in o if k == 'call']
     direct = len(calls) == 1 and (dotted(calls[0].func) or '').endswith('.ListTrials') and not any(k == 'iter' for k, _ in o)
-  only_filter = all(len(x.generators[0].ifs) == 1 and unparse(x.generators[0].ifs[0], 0).startswith('trial_filter(')
+  only_filter = all(len(x.generators[0].ifs) == 1 and _is_filter_call(x.generators[0].ifs[0])
                     for x in ast.walk(f.node) if isinstance(x, (ast.ListComp, ast.GeneratorExp)) and x.generators[0].ifs)
   ctx.check(direct and only_filter, 'R4', 'ServicePolicySupporter: no selection besides the TrialFilter', f.node,
             'every listed trial is converted; only trial_filter(t) selects',
